@@ -571,6 +571,30 @@ def saucestr_len(chk, f, ip):
                 if not ok:
                     chk.finding("%s|saucestr-build|LEN=%s" % (b.short(), ln), rule="R-SAUCESTR-LEN", where="%s:%s" % (b.file, s.get("line")), fn=b.short(),
                                 what="a SauceString<%s, _> is built from a vector that may hold more than %s bytes (%s): append_to would write a longer field and shift the record" % (ln, ln, why))
+    # (a') the writer of a field: called on a string of at most LEN bytes, with an (wlog) empty output vector, it leaves exactly
+    # LEN bytes in the vector - what R-SAUCE-AFFINE takes an append_to to contribute
+    writers = [b for b in f.bodies.values() if b.kind == "method" and (b.impl_self_s or "").startswith(SS) and not b.impl_trait and b.argc == 2
+               and b.tys(1).startswith("&sauce_mod::SauceString<") and b.tys(2) == "&mut std::vec::Vec<u8>"]
+    chk.floor("R-SAUCESTR-LEN", "field writers (&self, &mut Vec<u8>)", len(writers), 1)
+    for b in writers:
+        for ln, an in runs(b):
+            st0 = State()
+            st0.set_iv(("len", 1, ("*", "0")), 0, ln)
+            st0.set_iv(("len", 2, ("*",)), 0, 0)
+            an.analyze(b, entry=st0, collect=False)
+            for bi, blk in enumerate(b.blocks):
+                if blk["term"]["k"] != "return":
+                    continue
+                st = an.state_before_term(bi)
+                if st is None or st.bottom:
+                    continue
+                nob += 1
+                i = st.val_iv(("n", ("len", 2, ("*",)), 0))
+                ok = i[0] == ln and i[1] == ln
+                chk.obligation(ok)
+                if not ok:
+                    chk.finding("%s|saucestr-write|LEN=%s" % (b.short(), ln), rule="R-SAUCESTR-LEN", where="%s:%s" % (b.file, blk["term"].get("line")), fn=b.short(),
+                                what="writing a SauceString<%s, _> of at most %s bytes appends between %s and %s bytes, not exactly %s: the record is no longer 128 bytes long" % (ln, ln, i[0], i[1], ln))
     # (b) mutators: empty on entry -> at most LEN bytes at every return; (c) their call sites start from an empty string
     for b in mutators:
         selfp = None
